@@ -106,6 +106,14 @@ func (fr *Frame) callWith(st *State, c *ssa.CallCommon, in ssa.Instruction, args
 		}
 	}
 	if callee == nil {
+		root := fr
+		for root.parent != nil {
+			root = root.parent
+		}
+		if root.contract != nil && root.contract.DynPure {
+			ex.trustedUsed["dynamic-calls-pure: calls through function values in "+root.key()+" assumed to have no effect on modelled state"] = true
+			return fr.freshResults(st, sig, "dyn")
+		}
 		ex.havocAll(st, "dynamic call in "+fr.fn.Name())
 		return fr.freshResults(st, sig, "dyn")
 	}
@@ -156,6 +164,9 @@ func (fr *Frame) callStatic(st *State, callee *ssa.Function, bindings []*Term, c
 		if res, ok := m(fr, st, c, args); ok {
 			return res
 		}
+	}
+	if res, ok := fr.protoStringModel(st, callee, args); ok {
+		return res
 	}
 	key := fnKey(callee)
 	ct := ex.W.contracts[key]
